@@ -60,6 +60,9 @@ type Replay struct {
 	Limit  int        `json:"limit,omitempty"`
 	Ops    []Op       `json:"ops,omitempty"`
 	What   string     `json:"what,omitempty"` // tail | head | inverse | witness...
+	Huge   int        `json:"huge,omitempty"` // the offset beyond the data that must behave like Offset
+	At     []AtPos    `json:"at,omitempty"`   // kind "at": the explicit position
+	FollowOff int     `json:"follow_off,omitempty"` // the offset of the continuation request
 	Follow bool       `json:"follow,omitempty"` // the request is followed by its continuation request (a request from the position it returned)
 }
 
@@ -79,6 +82,8 @@ type store struct {
 	fwd      map[string][]Item // forward read by variant+order
 	sorted   bool              // every partition stored in time order
 	follow   bool              // the next request is followed by its continuation request
+	followOff int              // ... which has this offset (only on stores where the merged order does not depend on the tree)
+	unique   bool              // one partition, or all timestamps of the store distinct
 	extra    []Case            // cases a request produced besides its own (the continuation request)
 }
 
@@ -114,6 +119,19 @@ func openStore(parts []PartSpec) (*store, error) {
 				st.sorted = false
 			}
 		}
+	}
+	st.unique = true
+	if len(st.lay) > 1 {
+		seen := map[int64]bool{}
+		for _, l := range st.lay {
+			for _, e := range l.Evs {
+				if seen[e.Ts] {
+					st.unique = false
+				}
+				seen[e.Ts] = true
+			}
+		}
+		st.unique = st.unique && st.sorted
 	}
 	return st, nil
 }
@@ -247,7 +265,7 @@ func (st *store) doQuery(v Variant, pos string, offset, limit int, to time.Durat
 
 // forward returns the forward read (head, everything) of a cursor whose tree has the given source order
 func (st *store) forward(v Variant, order []string) ([]Item, bool) {
-	key := v.String() + "|" + strings.Join(order, ",")
+	key := v.String() + v.clauses() + "|" + strings.Join(order, ",")
 	if f, ok := st.fwd[key]; ok {
 		return f, true
 	}
@@ -256,7 +274,7 @@ func (st *store) forward(v Variant, order []string) ([]Item, bool) {
 		if r.hang || r.err != nil {
 			return nil, false
 		}
-		k := v.String() + "|" + strings.Join(r.order, ",")
+		k := v.String() + v.clauses() + "|" + strings.Join(r.order, ",")
 		st.fwd[k] = r.items
 		if k == key {
 			return r.items, true
@@ -432,7 +450,7 @@ func (st *store) runQuery(v Variant, what, pos string, offset, limit int, risky 
 		want = want[:limit]
 	}
 	if sameItems(r.items, want) && !risky && st.follow {
-		if err := st.runContinuation(v, what, pos, offset, limit, r, full[len(want):]); err != nil {
+		if err := st.runContinuation(v, what, pos, offset, limit, r, f, len(f)-len(full)+len(want)); err != nil {
 			return cs, err
 		}
 	}
@@ -454,9 +472,22 @@ func (st *store) runQuery(v Variant, what, pos string, offset, limit int, risky 
 // from that position (offset 0) returns, partition by partition, exactly the events the first request would have
 // returned behind its page (rest: in the order of the first cursor's tree; the second cursor may order ties differently,
 // so the comparison is per partition).
-func (st *store) runContinuation(v Variant, what, pos string, offset, limit int, r qout, rest []Item) error {
-	r2 := st.doQuery(v, r.pos, 0, 10000, finiteTimeout)
-	rp := &Replay{Kind: "query", Parts: st.parts, V: v, Pos: pos, Offset: offset, Limit: limit, What: what, Follow: true}
+func (st *store) runContinuation(v Variant, what, pos string, offset, limit int, r qout, f []Item, idxF int) error {
+	// the continuation may itself carry an offset: it moves within the accepted events around the first one not delivered
+	j := st.followOff
+	if !st.unique {
+		j = 0
+	}
+	start := idxF + j
+	if start < 0 {
+		start = 0
+	}
+	if start > len(f) {
+		start = len(f)
+	}
+	rest := f[start:]
+	r2 := st.doQuery(v, r.pos, j, 10000, finiteTimeout)
+	rp := &Replay{Kind: "query", Parts: st.parts, V: v, Pos: pos, Offset: offset, Limit: limit, What: what, Follow: true, FollowOff: j}
 	cs := Case{Replay: rp, Stream: "continuation", Tags: []string{"continuation:" + what, "variant:" + v.String(), fmt.Sprintf("parts:%d", len(st.parts))}}
 	if r2.hang {
 		cs.Oracle = &Violation{Class: "c16-continuation-hang", Detail: fmt.Sprintf("%s POSITION %q did not return", st.selectAll(v), r.pos)}
@@ -479,7 +510,7 @@ func (st *store) runContinuation(v Variant, what, pos string, offset, limit int,
 	if err != nil {
 		return err
 	}
-	cs.Coq = GApp("KQuery", gSrcs(srcs), gFlt(st.flt(v)), GApp("PAt", at), GZ(0), GNat(10000), GApp("QOk", gItems(r2.items), ps2))
+	cs.Coq = GApp("KQuery", gSrcs(srcs), gFlt(st.flt(v)), GApp("PAt", at), GZ(int64(j)), GNat(10000), GApp("QOk", gItems(r2.items), ps2))
 	cs.NonTrivial = len(st.parts) > 1 || len(st.lay[0].Chunks) > 1
 	per := func(l []Item) map[int][]Item {
 		m := map[int][]Item{}
@@ -500,8 +531,8 @@ func (st *store) runContinuation(v Variant, what, pos string, offset, limit int,
 			// before any Next, the position "end of the chunk" while it stands on the chunk's last record
 			class = "c16-backward-chunk-edge-position:dependency-jiterator"
 		}
-		cs.Oracle = &Violation{Class: class, Detail: fmt.Sprintf("%s POSITION %s OFFSET %d LIMIT %d over %d partitions returned [%s] and the position %q; a request from that position returns [%s], expected the events behind the page: [%s]",
-			st.selectAll(v), pos, offset, limit, len(st.parts), fmtItems(r.items), r.pos, fmtItems(r2.items), fmtItems(rest))}
+		cs.Oracle = &Violation{Class: class, Detail: fmt.Sprintf("%s POSITION %s OFFSET %d LIMIT %d over %d partitions returned [%s] and the position %q; a request from that position with OFFSET %d returns [%s], expected (the events behind the page, moved by that offset): [%s]",
+			st.selectAll(v), pos, offset, limit, len(st.parts), fmtItems(r.items), r.pos, j, fmtItems(r2.items), fmtItems(rest))}
 	}
 	st.extra = append(st.extra, cs)
 	return nil
@@ -651,8 +682,9 @@ func genParts(r *Rng, np, kind int) []PartSpec {
 		var chunks [][]Ev
 		var cc []Ev
 		edge := r.PickInt(2, 3, 5)
+		amode := r.PickInt(0, 0, 0, 0, 0, 0, 1, 2) // the WHERE filter accepts: some / all / none of the partition's events
 		for k := 0; k < ln; k++ {
-			cc = append(cc, Ev{Ts: ts[k], Id: i*100 + k + 1, A: r.Chance(3, 5)})
+			cc = append(cc, Ev{Ts: ts[k], Id: i*100 + k + 1, A: amode == 1 || (amode == 0 && r.Chance(3, 5))})
 			if r.Chance(1, edge) && k < ln-1 {
 				chunks = append(chunks, cc)
 				cc = nil
@@ -760,6 +792,26 @@ func genVariants(r *Rng, parts []PartSpec) []Variant {
 				}
 			}
 		}
+		// bounds that coincide with stored timestamps (both ends of a RANGE are inclusive), one instant, an empty range
+		var all []int64
+		for _, p := range parts {
+			for _, c := range p.Chunks {
+				for _, e := range c {
+					all = append(all, e.Ts)
+				}
+			}
+		}
+		switch r.Intn(12) {
+		case 0, 1:
+			a = all[r.Intn(len(all))]
+		case 2, 3:
+			b = all[r.Intn(len(all))]
+		case 4:
+			a = all[r.Intn(len(all))]
+			b = a
+		case 5:
+			a, b = b+1, a-1
+		}
 		return &[2]int64{a, b}
 	}
 	vs := []Variant{{}}
@@ -848,10 +900,27 @@ func sweepStore(r *Rng, parts []PartSpec, vs []Variant, full bool) ([]Case, erro
 					continue
 				}
 				limit := 10000
-				if r.Chance(1, 6) {
+				switch r.Intn(12) {
+				case 0, 1:
 					limit = r.Range(0, 3)
+				case 2: // around the size of the answer: one less, exactly, one more
+					wl := k
+					if q.pos == "head" {
+						wl = M - k
+					}
+					if wl > M {
+						wl = M
+					}
+					limit = wl + r.Range(-1, 1)
+					if limit < 0 {
+						limit = 0
+					}
 				}
 				st.follow = limit <= 3 || r.Chance(1, 4)
+				st.followOff = 0
+				if r.Chance(1, 3) {
+					st.followOff = r.PickInt(-2, -1, 1, 2)
+				}
 				if err := add(st.runQuery(v, q.what, q.pos, q.off, limit, risky)); err != nil {
 					return out, err
 				}
@@ -860,6 +929,24 @@ func sweepStore(r *Rng, parts []PartSpec, vs []Variant, full bool) ([]Case, erro
 				if err := reopen(); err != nil {
 					return out, err
 				}
+			}
+		}
+		// offsets far beyond the data, up to the ends of the integer type
+		for t := 0; t < 2 && !hangBudget.exhausted(); t++ {
+			if err := add(st.runHuge(v, r.PickStr("tail", "head"), hugeOffsets[r.Intn(len(hugeOffsets))])); err != nil {
+				return out, err
+			}
+			if err := reopen(); err != nil {
+				return out, err
+			}
+		}
+		// explicit positions on, next to and beyond chunk edges
+		for t := 0; t < 5 && !hangBudget.exhausted(); t++ {
+			if err := add(st.runAt(v, st.genAt(r), r.PickInt(0, 0, 0, 1, -1, 2, -2, n, -n), r.PickInt(10000, 10000, 1, 0))); err != nil {
+				return out, err
+			}
+			if err := reopen(); err != nil {
+				return out, err
 			}
 		}
 		// inverse scripts on a real cursor: Offset(+j); Get; Offset(+k); Get; Offset(-k); Get
@@ -937,8 +1024,13 @@ func run(c *Ctx) error {
 		var cs Case
 		if rp.Kind == "script" {
 			cs, err = st.runScript(rp.V, rp.What, rp.Ops, true)
+		} else if rp.Kind == "at" {
+			cs, err = st.runAt(rp.V, rp.At, rp.Offset, rp.Limit)
+		} else if rp.Huge != 0 {
+			cs, err = st.runHuge(rp.V, rp.Pos, rp.Huge)
 		} else {
 			st.follow = rp.Follow
+			st.followOff = rp.FollowOff
 			cs, err = st.runQuery(rp.V, rp.What, rp.Pos, rp.Offset, rp.Limit, true)
 		}
 		if err != nil {
@@ -985,6 +1077,99 @@ func run(c *Ctx) error {
 		}
 		addCase(c, cs)
 	}
+	// the edges of the mechanism's comparisons on the store [6 6 2] (one Write per chunk) and on the two-partition witness
+	// store: offsets beyond the data up to the ends of int, page limits around the size of the answer, positions on / next to /
+	// beyond chunk edges and unknown chunk ids, RANGE bounds on stored timestamps / one instant / empty, continuation offsets
+	{
+		type edge struct {
+			parts []PartSpec
+			run   func(st *store) (Case, error)
+		}
+		var edges []edge
+		for _, v := range []Variant{{}, {Where: true}, {Range: &[2]int64{155, 215}}} {
+			v := v
+			for _, h := range []struct {
+				pos string
+				off int
+			}{{"tail", -(1<<63 - 1)}, {"tail", -1 << 63}, {"head", 1<<63 - 1}, {"head", 1 << 31}} {
+				h := h
+				edges = append(edges, edge{rejectWitnessParts(), func(st *store) (Case, error) { return st.runHuge(v, h.pos, h.off) }})
+			}
+		}
+		for _, lim := range []int{2, 3, 4} {
+			lim := lim
+			edges = append(edges, edge{witnessParts(false), func(st *store) (Case, error) {
+				st.follow, st.followOff = true, lim-3
+				return st.runQuery(Variant{}, "witness", "tail", -3, lim, false)
+			}})
+		}
+		for _, a := range []struct {
+			chunk int
+			dc    int64
+			idx   int64 // -1: count, -2: count+1, -3: count-1
+			off   int
+		}{{1, 0, 0, -1}, {1, 0, -1, 0}, {0, 0, -3, 1}, {1, 1, 0, 0}, {1, -1, 5, -2}, {2, 0, 0xFFFFFFFF, -1}, {0, 0, -2, 0}, {2, 0, -1, -3}} {
+			a := a
+			for _, v := range []Variant{{}, {Where: true}, {Range: &[2]int64{155, 215}}} {
+				v := v
+				edges = append(edges, edge{rejectWitnessParts(), func(st *store) (Case, error) {
+					c := st.lay[0].Chunks[a.chunk]
+					idx := a.idx
+					switch idx {
+					case -1:
+						idx = int64(c.Count)
+					case -2:
+						idx = int64(c.Count) + 1
+					case -3:
+						idx = int64(c.Count) - 1
+					}
+					return st.runAt(v, []AtPos{{Part: 0, CId: uint64(int64(c.Id) + a.dc), Idx: uint32(idx)}}, a.off, 10000)
+				}})
+			}
+		}
+		for _, rg := range [][2]int64{{160, 160}, {150, 160}, {211, 219}, {216, 154}, {100, 230}} {
+			rg := rg
+			for _, q := range []struct {
+				pos string
+				off int
+			}{{"tail", -1}, {"head", 1}, {"tail", -20}} {
+				q := q
+				edges = append(edges, edge{rejectWitnessParts(), func(st *store) (Case, error) {
+					st.follow, st.followOff = true, 0
+					return st.runQuery(Variant{Range: &rg}, "witness", q.pos, q.off, 10000, false)
+				}})
+			}
+		}
+		var est *store
+		var eparts string
+		for _, e := range edges {
+			key := fmt.Sprintf("%v", e.parts)
+			if est == nil || key != eparts || est.poisoned {
+				if est != nil {
+					est.close()
+				}
+				var err error
+				if est, err = openStore(e.parts); err != nil {
+					return err
+				}
+				eparts = key
+			}
+			cs, err := e.run(est)
+			extra := est.extra
+			est.extra = nil
+			if err != nil {
+				est.close()
+				return err
+			}
+			addCase(c, cs)
+			for _, x := range extra {
+				addCase(c, x)
+			}
+		}
+		if est != nil {
+			est.close()
+		}
+	}
 	// the position an answer carries (C16_position_after_backward_refuted, recorded for the iterator of the dependency;
 	// C16_position_ranged): one partition [1,2,3], tail OFFSET -1 LIMIT 0, then the request from the returned position
 	for _, v := range []Variant{{}, {Range: &[2]int64{0, 100}}} {
@@ -1013,9 +1198,9 @@ func run(c *Ctx) error {
 		r     *Rng
 	}
 	var jobs []job
-	ns := c.N(14)
+	ns := c.N(11)
 	for i := 0; i < ns; i++ {
-		np := c.Rng.PickInt(1, 1, 2, 2, 3)
+		np := c.Rng.PickInt(1, 1, 2, 2, 3, 3, 4, 5)
 		kind := c.Rng.PickInt(0, 0, 1, 1, 2, 3)
 		parts := genParts(c.Rng, np, kind)
 		jobs = append(jobs, job{parts, genVariants(c.Rng, parts), i < 4, c.Rng.Fork()})
